@@ -60,7 +60,7 @@ def lexer_triage(repo):
     if not any(tables.tb1(repo, c) for c in tables.grammar_classes(repo)):
         for cname in repo.subclasses("PVLParser"):
             if "aggregation_cls" in repo.classes[cname].methods:
-                keys.add(f"T1|{cname}.aggregation_cls|raise ValueError")
+                keys.add(f"T1|{cname}.aggregation_cls|raise ValueError*")
     return tuple(sorted(keys))
 
 
